@@ -488,3 +488,9 @@ func Infra(err error) error {
 	}
 	return &HarnessError{Err: err}
 }
+
+// RunOnce executes one case with full accounting (for fuzz targets that drive
+// the same generator and oracle through rapid.MakeFuzz).
+func RunOnce[C any](r *Runner, c *C, check func(*Env, *C) error) error {
+	return exec1(r, c, check)
+}
